@@ -61,7 +61,7 @@ func opaqueNamed(t types.Type) (string, bool) {
 	case "sync.Mutex", "sync.RWMutex", "sync.WaitGroup", "sync.Once", "sync.Map", "sync.Cond", "sync.Pool",
 		"time.Time", "math/big.Int", "math/big.Float", "math/big.Rat",
 		"sync/atomic.Int32", "sync/atomic.Int64", "sync/atomic.Uint32", "sync/atomic.Uint64", "sync/atomic.Bool", "sync/atomic.Value",
-		"net.UDPAddr", "net.TCPAddr", "net.IPNet_", "bytes.Buffer", "strings.Builder", "time.Timer", "time.Ticker",
+		"net.TCPAddr", "net.IPNet_", "bytes.Buffer", "strings.Builder", "time.Timer", "time.Ticker",
 		"net/http.Client", "net/http.Server", "net/http.Request", "encoding/json.Decoder", "bufio.Reader", "bufio.Scanner",
 		"regexp.Regexp", "os.File", "crypto/tls.Config", "context.emptyCtx":
 		return full, true
